@@ -246,22 +246,15 @@ Proof.
     { unfold at_term. rewrite Hs. cbn [lit orb]. now rewrite (N.eqb_sym 124 c), Hb. }
     rewrite E. now apply IH.
 Qed.
-Lemma alpha_facts c : is_alpha c = true -> is_digit c = false /\ is_space c = false /\ (c =? 62) = false /\ (c =? 61) = false /\ (c =? 60) = false /\
-  (c =? 126) = false /\ (c =? 94) = false /\ (c =? 42) = false /\ (c =? 124) = false /\ (c =? 45) = false.
+Lemma junk_facts c : junk_start c = true -> is_digit c = false /\ is_wild c = false /\ is_space c = false /\ (c =? 118) = false /\ (c =? 62) = false /\ (c =? 61) = false /\
+  (c =? 60) = false /\ (c =? 126) = false /\ (c =? 94) = false /\ (c =? 124) = false /\ (c =? 45) = false.
 Proof.
-  unfold is_alpha, is_digit, is_space. rewrite orb_true_iff, !andb_true_iff, !N.leb_le. intro H.
-  repeat split; repeat match goal with
-    | |- context [?a =? ?b] => destruct (N.eqb_spec a b); [lia|]
-    | |- context [?a <=? ?b] => destruct (N.leb_spec a b); try lia
-    end; reflexivity.
+  unfold junk_start. rewrite !andb_true_iff, !negb_true_iff. intros ((((((((((A & B) & C) & D) & E) & F) & G) & H) & I) & J) & K). repeat split; assumption.
 Qed.
 Theorem simple_garbage t r : garbage_token t -> term r -> simple (t ++ r) = (None, r).
 Proof.
-  intros (c & t' & -> & Ha & N118 & N120 & N88 & Ht) Hr.
-  destruct (alpha_facts c Ha) as (D & Sp & N62 & N61 & N60 & N126 & N94 & N42 & N124 & N45).
-  assert (W : is_wild c = false).
-  { unfold is_wild. rewrite N42. apply N.eqb_neq in N120, N88. now rewrite N120, N88. }
-  apply N.eqb_neq in N118.
+  intros (c & t' & -> & Ha & Ht) Hr.
+  destruct (junk_facts c Ha) as (D & W & Sp & N118 & N62 & N61 & N60 & N126 & N94 & N124 & N45).
   rewrite simple_unfold. cbn [app].
   rewrite (terminated_none primitive_p) by (apply primitive_p_none; auto).
   rewrite (terminated_none partial_p) by (apply partial_p_none; auto).
@@ -285,7 +278,7 @@ Proof.
   - destruct (partial_text_pstart t0 p Ht) as (x & t' & -> & Hx). destruct (pstart_facts x Hx) as (Sp & _ & _ & _ & _ & _ & B & D).
     destruct f; cbn in Hl; try (destruct Hl as (w & _ & ->)); try (destruct Hl as (w1 & w2 & _ & _ & ->)); try subst l; cbn [app];
       eexists _, _; (split; [reflexivity|]); auto.
-  - destruct (alpha_facts x Ha) as (_ & Sp & _ & _ & _ & _ & _ & _ & B & D). eexists _, _. split; [reflexivity|]. auto.
+  - destruct (junk_facts x Ha) as (_ & _ & Sp & _ & _ & _ & _ & _ & _ & B & D). eexists _, _. split; [reflexivity|]. auto.
 Qed.
 Lemma set_text_head cs s : set_text cs s -> exists x t', s = x :: t' /\ is_space x = false /\ (x =? 45) = false /\ (x =? 124) = false.
 Proof.
@@ -339,13 +332,11 @@ Qed.
 Lemma comp_text_partial c t rest : comp_text c t -> term rest ->
   partial_version (t ++ rest) = None \/ exists p, partial_version (t ++ rest) = Some (p, rest).
 Proof.
-  intros [f p l t0 Hl Ht|t0 (x & t' & -> & Ha & N118 & N120 & N88 & _)] Hr.
+  intros [f p l t0 Hl Ht|t0 (x & t' & -> & Ha & _)] Hr.
   - destruct f; cbn in Hl; try (destruct Hl as (w & _ & ->)); try (destruct Hl as (w1 & w2 & _ & _ & ->)); try subst l; cbn [app];
       try (left; apply partial_version_bad; reflexivity).
     right. exists p. now apply partial_text_fwd.
-  - left. destruct (alpha_facts x Ha) as (D & Sp & _ & _ & _ & _ & _ & N42 & _). cbn [app]. apply partial_version_bad; auto.
-    + now apply N.eqb_neq.
-    + unfold is_wild. rewrite N42. apply N.eqb_neq in N120, N88. now rewrite N120, N88.
+  - left. destruct (junk_facts x Ha) as (D & W & Sp & N118 & _). cbn [app]. now apply partial_version_bad.
 Qed.
 Lemma hyphen_p_after p0 rest : forall s, partial_version s = Some (p0, rest) ->
   (space1 rest = None \/ exists r2, space1 rest = Some r2 /\ lit1 45 r2 = None) -> hyphen_p s = None.
@@ -632,4 +623,63 @@ Proof.
   - intro P. apply (and_fold_app_pre _ _ v N1 N2 W1 W2 P).
   - apply (and_fold_never_widens _ _ v N1 N2 W1 W2 H).
   - apply (and_fold_never_widens _ _ v N1 N2 W1 W2 H).
+Qed.
+
+(** a lone [-] followed by blanks is an unparseable token *)
+Lemma simple_dash w rest : blank1 w -> simple (45 :: w ++ rest) = (None, w ++ rest).
+Proof.
+  intro Hw. rewrite simple_unfold.
+  rewrite (terminated_none primitive_p) by (apply primitive_p_none; reflexivity).
+  rewrite (terminated_none partial_p) by (apply partial_p_none; reflexivity).
+  rewrite (terminated_none tilde_p) by (apply tilde_p_none; reflexivity).
+  rewrite (terminated_none caret_p) by (apply caret_p_none; reflexivity).
+  f_equal. change (45 :: w ++ rest) with ([45] ++ (w ++ rest)). apply garbage_fwd; [reflexivity|]. now apply blank1_term.
+Qed.
+Lemma at_alt_end_more w s r : blank_str w -> (exists x t, s = x :: t /\ is_space x = false /\ (x =? 124) = false) -> at_alt_end (w ++ s ++ r) = false.
+Proof.
+  intros Hw (x & t & -> & Sp & Nb). unfold at_alt_end. rewrite (space0_fwd w ((x :: t) ++ r) Hw) by exact Sp.
+  cbn [app lit]. now rewrite (N.eqb_sym 124 x), Nb.
+Qed.
+
+(** D19 as a theorem: a hyphen range followed by further tokens is NOT a hyphen range; its [-] is a dropped token and
+    the alternative is the comparator set [lo hi ...] *)
+Theorem hyphen_then_tokens lo hi t1 w1 w2 t2 w cs s r :
+  partial_text t1 lo -> blank1 w1 -> blank1 w2 -> partial_text t2 hi -> blank1 w -> set_text cs s -> alt_end r ->
+  range_p (t1 ++ w1 ++ 45 :: w2 ++ t2 ++ w ++ s ++ r) =
+  Some (compile_alt (ASet (Comp FBare lo :: Garbage :: Comp FBare hi :: cs)), r).
+Proof.
+  intros H1 Hw1 Hw2 H2 Hw Hs Hr. unfold range_p.
+  destruct (partial_text_pstart t1 lo H1) as (c1 & t1' & E1 & Hc1). destruct (pstart_facts c1 Hc1) as (Sp1 & _).
+  destruct (partial_text_pstart t2 hi H2) as (c2 & t2' & E2 & Hc2). destruct (pstart_facts c2 Hc2) as (Sp2 & _).
+  destruct (set_text_head cs s Hs) as (x & s' & Es & Spx & _ & Nbx).
+  set (whole := t1 ++ w1 ++ 45 :: w2 ++ t2 ++ w ++ s ++ r).
+  assert (E0 : space0 whole = whole). { unfold whole. rewrite E1. cbn [app]. now apply space0_id_head. }
+  rewrite E0.
+  (* the hyphen parser succeeds, but more tokens follow *)
+  assert (Eh : hyphen_p whole = Some (hyphen_tbl lo hi, w ++ s ++ r)).
+  { unfold whole, hyphen_p. rewrite (partial_text_fwd t1 lo _ H1 (blank1_term w1 _ Hw1)).
+    rewrite (space1_fwd w1 _ Hw1) by reflexivity. cbn [lit1]. rewrite N.eqb_refl.
+    rewrite (space1_fwd w2 (t2 ++ w ++ s ++ r) Hw2) by (rewrite E2; exact Sp2).
+    now rewrite (partial_text_fwd t2 hi (w ++ s ++ r) H2 (blank1_term w _ Hw)). }
+  rewrite Eh. rewrite (at_alt_end_more w s r (blank1_blank w Hw)) by (exists x, s'; auto).
+  (* so the alternative is a comparator set: lo, a dropped `-`, hi, and the rest *)
+  unfold simples_p, whole.
+  assert (B1 : comp_text (Comp FBare lo) t1) by (apply (CT_comp FBare lo [] t1); [reflexivity|exact H1]).
+  assert (B2 : comp_text (Comp FBare hi) t2) by (apply (CT_comp FBare hi [] t2); [reflexivity|exact H2]).
+  rewrite (simple_comp_text _ t1 (w1 ++ 45 :: w2 ++ t2 ++ w ++ s ++ r) B1 (blank1_term w1 _ Hw1)).
+  set (f := length (w1 ++ 45 :: w2 ++ t2 ++ w ++ s ++ r)).
+  assert (Hf : (length w1 + 1 + length w2 + length t2 + length w + length (s ++ r) <= f)%nat).
+  { unfold f. rewrite !app_length. cbn [length]. rewrite !app_length. lia. }
+  assert (L1 : (1 <= length w1)%nat) by (destruct Hw1 as [N _]; destruct w1; [congruence|cbn; lia]).
+  assert (L2 : (1 <= length w2)%nat) by (destruct Hw2 as [N _]; destruct w2; [congruence|cbn; lia]).
+  assert (L3 : (1 <= length t2)%nat) by (rewrite E2; cbn; lia).
+  assert (L4 : (1 <= length w)%nat) by (destruct Hw as [N _]; destruct w; [congruence|cbn; lia]).
+  destruct f as [|f1]; [lia|]. cbn [simples_tail].
+  rewrite (space1_fwd w1 (45 :: w2 ++ t2 ++ w ++ s ++ r) Hw1) by reflexivity.
+  rewrite (simple_dash w2 (t2 ++ w ++ s ++ r) Hw2).
+  destruct f1 as [|f2]; [lia|]. cbn [simples_tail].
+  rewrite (space1_fwd w2 (t2 ++ w ++ s ++ r) Hw2) by (rewrite E2; exact Sp2).
+  rewrite (simple_comp_text _ t2 (w ++ s ++ r) B2 (blank1_term w _ Hw)).
+  rewrite (simples_tail_set cs s Hs r f2 w Hr) by (auto; lia).
+  reflexivity.
 Qed.
